@@ -15,6 +15,9 @@ LEAVES = {
     "boolean": ["true", "false"],
 }
 
+# builtin leaf names the printer writes with the xs: prefix (harness/valgen.py draws from the wider set)
+BUILTIN_LEAVES = set(LEAVES) | {"decimal", "double", "date", "dateTime", "base64Binary", "long", "unsignedByte", "anyURI", "token"}
+
 
 # ---------------------------------------------------------------------------- source schema AST
 # particle: dict(k="elem", name, type=<leaf name | type name>, min, max, nillable)
@@ -46,15 +49,18 @@ class Gen:
             return 1, 1
         return self.rng.choice([(0, None), (1, None), (0, 3), (2, 3), (1, 2), (2, 2)])
 
+    def leaf_type(self, attr=False):
+        return self.rng.choice(list(LEAVES))
+
     def leaf_elem(self, name=None, occ=None):
         mn, mx = occ if occ else self.occ()
-        return dict(k="elem", name=name or self.fresh("e"), type=self.rng.choice(list(LEAVES)), min=mn, max=mx,
+        return dict(k="elem", name=name or self.fresh("e"), type=self.leaf_type(), min=mn, max=mx,
                     nillable=self.rng.random() < 0.15)
 
     def attrs(self):
         out = []
         for _ in range(self.rng.choice([0, 0, 1, 2])):
-            out.append(dict(name=self.fresh("at"), type=self.rng.choice(list(LEAVES)), required=self.rng.random() < 0.4))
+            out.append(dict(name=self.fresh("at"), type=self.leaf_type(attr=True), required=self.rng.random() < 0.4))
         return out
 
     def complex_type(self, depth):
@@ -62,7 +68,7 @@ class Gen:
         self.types[name] = None  # reserve
         r = self.rng.random()
         if r < 0.1:
-            t = dict(kind="simpleContent", base=self.rng.choice(list(LEAVES)), attrs=self.attrs() or [dict(name=self.fresh("at"), type="string", required=False)])
+            t = dict(kind="simpleContent", base=self.leaf_type(), attrs=self.attrs() or [dict(name=self.fresh("at"), type="string", required=False)])
         elif r < 0.18:
             # attribute-only type (no content particle)
             t = dict(kind="complex", content=None, attrs=self.attrs() or [dict(name=self.fresh("at"), type="string", required=self.rng.random() < 0.5)], base=None)
@@ -152,8 +158,9 @@ def print_particle(p):
     k = p["k"]
     if k == "elem":
         ty = p["type"]
-        tref = "xs:" + ty if ty in LEAVES else "t:" + ty
-        return '<xs:element name="%s" type="%s"%s%s/>' % (p["name"], tref, occ_attrs(p), ' nillable="true"' if p.get("nillable") else "")
+        tref = "xs:" + ty if ty in BUILTIN_LEAVES else "t:" + ty
+        return '<xs:element name="%s" type="%s"%s%s%s/>' % (p["name"], tref, occ_attrs(p), ' nillable="true"' if p.get("nillable") else "",
+                                                            ' form="%s"' % p["form"] if p.get("form") else "")
     if k == "any":
         return '<xs:any processContents="lax"%s/>' % occ_attrs(p)
     if k == "group":
@@ -163,7 +170,9 @@ def print_particle(p):
 
 
 def print_attrs(attrs):
-    return "".join('<xs:attribute name="%s" type="xs:%s"%s/>' % (a["name"], a["type"], ' use="required"' if a["required"] else "") for a in attrs)
+    return "".join('<xs:attribute name="%s" type="%s"%s%s/>' % (a["name"], ("xs:" if a["type"] in BUILTIN_LEAVES else "t:") + a["type"],
+                                                               ' use="required"' if a["required"] else "",
+                                                               ' form="%s"' % a["form"] if a.get("form") else "") for a in attrs)
 
 
 def print_schema(s):
@@ -172,8 +181,8 @@ def print_schema(s):
     out.append('<xs:element name="%s" type="t:%s"/>' % s["root"])
     for name, t in s["types"].items():
         if t["kind"] == "simpleContent":
-            out.append('<xs:complexType name="%s"><xs:simpleContent><xs:extension base="xs:%s">%s</xs:extension></xs:simpleContent></xs:complexType>'
-                       % (name, t["base"], print_attrs(t["attrs"])))
+            out.append('<xs:complexType name="%s"><xs:simpleContent><xs:extension base="%s">%s</xs:extension></xs:simpleContent></xs:complexType>'
+                       % (name, ("xs:" if t["base"] in BUILTIN_LEAVES else "t:") + t["base"], print_attrs(t["attrs"])))
         elif t.get("base"):
             out.append('<xs:complexType name="%s"><xs:complexContent><xs:extension base="t:%s">%s%s</xs:extension></xs:complexContent></xs:complexType>'
                        % (name, t["base"], print_particle(t["content"]) if t["content"] else "", print_attrs(t["attrs"])))
@@ -181,6 +190,12 @@ def print_schema(s):
             out.append('<xs:complexType name="%s">%s%s</xs:complexType>' % (name, print_particle(t["content"]) if t["content"] else "", print_attrs(t["attrs"])))
     for name, p in s["groups"].items():
         out.append('<xs:group name="%s">%s</xs:group>' % (name, print_particle(p)))
+    for name, st in s.get("simple", {}).items():
+        if st["kind"] == "list":
+            out.append('<xs:simpleType name="%s"><xs:list itemType="xs:%s"/></xs:simpleType>' % (name, st["item"]))
+        else:
+            out.append('<xs:simpleType name="%s"><xs:restriction base="xs:%s">%s</xs:restriction></xs:simpleType>'
+                       % (name, st["base"], "".join('<xs:enumeration value="%s"/>' % v for v in st.get("enum", []))))
     out.append("</xs:schema>")
     return "".join(out)
 
@@ -331,10 +346,13 @@ def dump_type(t, depth):
     from zeep.xsd.types.simple import AnySimpleType
     from zeep.xsd.elements import Element as ZElement
     if isinstance(t, ComplexType):
-        attrs = [dict(q=qn_json(a.qname), attr=n, required=bool(getattr(a, "required", False))) for n, a in t.attributes if getattr(a, "qname", None) is not None]
+        from zeep.xsd.types.collection import ListType
+        attrs = [dict(q=qn_json(a.qname), attr=n, required=bool(getattr(a, "required", False)), list=isinstance(getattr(a, "type", None), ListType))
+                 for n, a in t.attributes if getattr(a, "qname", None) is not None]
         el = t._element
         if isinstance(el, ZElement) and isinstance(el.type, AnySimpleType):
-            return dict(k="simpleContent", b=str(el.type.name or type(el.type).__name__), attrs=attrs, valname=t.elements_nested[0][0])
+            return dict(k="simpleContent", b=str(el.type.name or type(el.type).__name__), attrs=attrs, valname=t.elements_nested[0][0],
+                        list=isinstance(el.type, ListType))
         if depth <= 0:
             return dict(k="cut")
         content = None
@@ -343,7 +361,8 @@ def dump_type(t, depth):
             content = dump_particle(e, depth, n if getattr(e, 'accepts_multiple', False) else None)
         return dict(k="complex", content=content, attrs=attrs, has_fields=bool(t.attributes or t.elements))
     if isinstance(t, AnySimpleType):
-        return dict(k="simple", b=str(getattr(t, "name", None) or type(t).__name__))
+        from zeep.xsd.types.collection import ListType
+        return dict(k="simple", b=str(getattr(t, "name", None) or type(t).__name__), list=isinstance(t, ListType))
     if isinstance(t, AnyType):
         return dict(k="any")
     return dict(k="simple", b=type(t).__name__)
